@@ -1788,6 +1788,13 @@ void generate(Program &prog, dsim::Config &cfg, dsim::Rng &pr, dsim::Rng &cr, in
   cfg.oversleep_permille = cr.chance(1, 3) ? 200 : 0;
   cfg.eintr_permille = cr.chance(1, 3) ? 150 : 0;
   cfg.spin_bound = 2 * CPP_UTILITY_SPINLOCK_RETRY_NUM + 8;
+  if (CPP_UTILITY_SPINLOCK_RETRY_NUM == 0) {
+    // retry number 0: every failed attempt sleeps, so a waiting thread's loop is "load, sleep".  Sleep-length faults (oversleep by up to
+    // 10^4, EINTR) then let one thread sit out the whole step budget of a deadlock verdict's grace phase while it is not blocked at all
+    // (false deadlock verdicts at the thorough tier, seed 909); this build explores schedules and spurious CAS failures only
+    cfg.oversleep_permille = 0;
+    cfg.eintr_permille = 0;
+  }
   cfg.max_steps = 200000;
   cfg.tso = profile != kHb && cr.chance(1, 5);  // x86-TSO store buffers inside API calls; never for C08's happens-before runs
   static const int kDrain[] = {1, 5, 25};
